@@ -43,7 +43,7 @@ CFG = dict(
     ocaml="c19",
     race=True,
     casesv=c19_casesv,
-    rule=("every script of <= 3 calls over an 8-symbol alphabet of (Write|WriteString, n, reported, err) plus every 4-call script over "
+    rule=("[scripted failures cycle through 13 error identities: wrapped/bare EINTR, EAGAIN, ErrShortWrite, EOF, deadline and context errors, a temporary timeout, EPIPE ...; the model only knows that the call failed] every script of <= 3 calls over an 8-symbol alphabet of (Write|WriteString, n, reported, err) plus every 4-call script over "
           "4 symbols (thorough: <= 4 calls over 10 symbols), each with 4 wrapped-writer kinds (io.Writer only / + io.StringWriter, "
           "gated / free-running) x 5-6 consumer kinds (absent until Close, fast, slow one-at-a-time with abandoned receives, late, and the "
           "forced schedule 'first update delivered, then busy until Close' confirmed by observation); for the gated kinds also the "
